@@ -5,7 +5,7 @@ import (
 	"strings"
 )
 
-var repoFrame = regexp.MustCompile(`github\.com/zenon-network/go-zenon/[^\s(]+`)
+var repoFrame = regexp.MustCompile(`github\.com/zenon-network/go-zenon/[\w/\-\.]+(\(\*?\w+\))?[\w\.]*`)
 
 // topRepoFrame extracts the first go-zenon function after the panic line of a goroutine dump.
 func topRepoFrame(tail string) string {
